@@ -745,11 +745,30 @@ def part_ctor_cross(ctx, shard):
             Unit("km", registry=rb)  # an unrelated earlier parse in the other registry (changes its table, hence its content id)
         fa0, fb0 = 3.0, (3.0 if twin == "identical" else 6.0)
         ctx.count("evaluations")
+        arg = Unit("foo", registry=rb)
         try:
             if how == "array(Unit-of-b, registry=a)":
-                x, bind, f_created = unyt.unyt_array(data.copy(), Unit("foo", registry=rb), registry=ra), "a", fa0
+                x, bind, f_created = unyt.unyt_array(data.copy(), arg, registry=ra), "a", fa0
             elif how == "quantity(Unit-of-b, registry=a)":
-                x, bind, f_created = unyt.unyt_quantity(2.0, Unit("foo", registry=rb), registry=ra), "a", fa0
+                x, bind, f_created = unyt.unyt_quantity(2.0, arg, registry=ra), "a", fa0
+            elif how == "array(Unit-of-b, registry=a, bypass_validation)":
+                # the fast path keeps the unit's own numbers (no re-parse): bound to a, created with b's definition
+                x, bind, f_created = unyt.unyt_array(data.copy(), arg, registry=ra, bypass_validation=True), "a", fb0
+            elif how == "quantity(Unit-of-b, registry=a, bypass_validation)":
+                x, bind, f_created = unyt.unyt_quantity(2.0, arg, registry=ra, bypass_validation=True), "a", fb0
+            elif how == "array(exported-unit, registry=a, bypass_validation)":
+                from unyt.unit_registry import default_unit_registry as _D
+
+                before = (unyt.km.registry is _D, float((5 * unyt.km).to("m").d))
+                ra.modify("m", 2.0)
+                unyt.unyt_array(data.copy(), unyt.km, registry=ra, bypass_validation=True)
+                unyt.unyt_quantity(1.0, unyt.km, registry=ra, bypass_validation=True)
+                after = (unyt.km.registry is _D, float((5 * unyt.km).to("m").d))
+                ctx.decided(("ctor-cross", twin, warm, how, edit))
+                if after != before:
+                    ctx.violation(f"C13|ctor-cross|how={how}|mode=exported-unit-rebound-to-the-custom-registry", {"part": "ctor-cross", "twin": twin, "warm": warm, "how": how, "edit": edit}, before, after)
+                    unyt.km.registry = _D  # repair the process-wide object for the cases that follow
+                continue
             elif how == "array(str, registry=a)":
                 x, bind, f_created = unyt.unyt_array(data.copy(), "foo", registry=ra), "a", fa0
             else:  # array(Unit-of-b)
@@ -766,6 +785,10 @@ def part_ctor_cross(ctx, shard):
         base = f"C13|ctor-cross|how={how}|tables={twin}|edit={edit}"
         ctx.decided(("ctor-cross", twin, warm, how, edit))
         want_reg = ra if bind == "a" else rb
+        if arg.registry is not rb or Unit("foo", registry=rb).registry is not rb:
+            ctx.violation(base + "|mode=unit-argument-rebound-to-the-other-registry", case, "b", "a")
+            arg.registry = rb
+            continue
         if x.units.registry is not want_reg:
             ctx.violation(base + "|mode=bound-to-the-other-registry", case, bind, "other")
             continue
@@ -792,7 +815,8 @@ def run(ctx):
         capped = capped or st["bfs_capped"]
     harness.pmap(ctx, part_default_paths, [[p] for p in DEFAULT_PATHS])
     combos = list(itertools.product(("identical", "different"), (False, True),
-                                    ("array(Unit-of-b, registry=a)", "quantity(Unit-of-b, registry=a)", "array(str, registry=a)", "array(Unit-of-b)"),
+                                    ("array(Unit-of-b, registry=a)", "quantity(Unit-of-b, registry=a)", "array(str, registry=a)", "array(Unit-of-b)",
+                                     "array(Unit-of-b, registry=a, bypass_validation)", "quantity(Unit-of-b, registry=a, bypass_validation)", "array(exported-unit, registry=a, bypass_validation)"),
                                     ("none", "modify-a", "modify-b")))
     harness.pmap(ctx, part_ctor_cross, [combos[i::8] for i in range(8)])
     harness.pmap(ctx, part_edit_arguments, [[d] for d in ("exported-constant-cgs", "exported-constant-mks", "top-level-constant", "exported-unit-product", "quantity-of-another-registry", "held-quantity-cgs")])
